@@ -279,8 +279,18 @@ func (sw *SlidingWindow) Add(data any) {
 			sw.dropLastRow()
 		}
 		sort.Slice(lateSlots, func(a, b int) bool { return lateSlots[a].Start.Before(*lateSlots[b].Start) })
+		// All updated contents are collected before the first one is delivered: the
+		// delivery releases the lock, and a window firing meanwhile may evict the late
+		// row from the buffer, so that a later covering window would be delivered
+		// again without it.
+		updates := make([][]types.Row, 0, len(lateSlots))
 		for _, slot := range lateSlots {
-			sw.triggerLateUpdateLocked(slot)
+			if resultData := sw.collectLateUpdateLocked(slot); len(resultData) > 0 {
+				updates = append(updates, resultData)
+			}
+		}
+		for _, resultData := range updates {
+			sw.deliverLateUpdateLocked(resultData)
 		}
 	}
 }
@@ -892,6 +902,15 @@ func (sw *SlidingWindow) handleLateData(eventTime time.Time, allowedLateness tim
 // triggerLateUpdateLocked triggers a late update for a window (must be called with lock held)
 // Late updates include complete window data (original + late data)
 func (sw *SlidingWindow) triggerLateUpdateLocked(slot *types.TimeSlot) {
+	if resultData := sw.collectLateUpdateLocked(slot); len(resultData) > 0 {
+		sw.deliverLateUpdateLocked(resultData)
+	}
+}
+
+// collectLateUpdateLocked builds the updated contents of a fired window (its
+// snapshot plus the late rows still in the buffer) and records them as the new
+// snapshot. Must be called with the lock held; does not release it.
+func (sw *SlidingWindow) collectLateUpdateLocked(slot *types.TimeSlot) []types.Row {
 	// Find the triggered window info to get snapshot data
 	var windowInfo *triggeredWindowInfo
 	windowKey := sw.getWindowKey(*slot.End)
@@ -940,7 +959,7 @@ func (sw *SlidingWindow) triggerLateUpdateLocked(slot *types.TimeSlot) {
 	}
 
 	if len(resultData) == 0 {
-		return
+		return nil
 	}
 
 	// Update snapshot to include late data (for future late updates)
@@ -956,6 +975,12 @@ func (sw *SlidingWindow) triggerLateUpdateLocked(slot *types.TimeSlot) {
 		}
 	}
 
+	return resultData
+}
+
+// deliverLateUpdateLocked sends one late update. Must be called with the lock
+// held; the lock is released around the callback and the send.
+func (sw *SlidingWindow) deliverLateUpdateLocked(resultData []types.Row) {
 	// Get callback reference before releasing lock
 	callback := sw.callback
 
